@@ -127,6 +127,12 @@ func (w *fakeCryptRW) WriteMsg(m *dns.Msg) error { w.got = m; return nil }
 // servers caches one unstarted server per (transport, cfgMax, idle).
 type servers struct {
 	cur *dns.Msg
+	// mode is what the handler does: "wrote" (WriteMsg(cur), return its error),
+	// "silent" (return nil), "failed0" (return an error), "failed1" (return a
+	// timeout error); none of the last three writes anything.
+	mode string
+	// called is set when the handler ran.
+	called bool
 	// writeErr is what the response writer returned to the handler.
 	writeErr error
 	cache    map[string]any
@@ -134,6 +140,15 @@ type servers struct {
 
 func (sv *servers) handler() dnsserver.Handler {
 	return dnsserver.HandlerFunc(func(ctx context.Context, rw dnsserver.ResponseWriter, req *dns.Msg) error {
+		sv.called = true
+		switch sv.mode {
+		case "silent":
+			return nil
+		case "failed0":
+			return errHandler
+		case "failed1":
+			return os.ErrDeadlineExceeded
+		}
 		resp := sv.cur
 		resp.Id = req.Id
 
@@ -142,6 +157,8 @@ func (sv *servers) handler() dnsserver.Handler {
 		return sv.writeErr
 	})
 }
+
+var errHandler = fmt.Errorf("c08: handler failed")
 
 func (sv *servers) get(t string, cfgMax uint16, idleMs int) any {
 	key := fmt.Sprintf("%s/%d/%d", t, cfgMax, idleMs)
@@ -182,7 +199,11 @@ type driven struct {
 // drive pushes reqWire through the real serving code of transport t with a
 // handler that answers resp.  resp is normalised in place.
 func (sv *servers) drive(t string, cfgMax uint16, idleMs int, reqWire []byte, resp *dns.Msg) (d driven) {
-	sv.cur, sv.writeErr = resp, nil
+	return sv.driveMode("wrote", t, cfgMax, idleMs, reqWire, resp)
+}
+
+func (sv *servers) driveMode(mode, t string, cfgMax uint16, idleMs int, reqWire []byte, resp *dns.Msg) (d driven) {
+	sv.cur, sv.writeErr, sv.mode, sv.called = resp, nil, mode, false
 	sk := &sink{}
 	switch t {
 	case "udp":
@@ -431,6 +452,9 @@ type tcase struct {
 }
 
 type pending struct {
+	// wire: real is a view of the bytes on the wire; the model's Len() field is
+	// not compared.
+	wire     bool
 	c        tcase
 	line     string
 	real     string
@@ -446,6 +470,9 @@ type runner struct {
 	sv     *servers
 	legacy string
 	queue  []pending
+	// curTsigExempt: the handler response of the case being judged is one that
+	// Msg.Truncate refuses to touch (TSIG last).
+	curTsigExempt bool
 }
 
 func (x *runner) flush() {
@@ -463,6 +490,9 @@ func (x *runner) flush() {
 		if p.contract != "" {
 			x.r.Disagree("library-contract", p.contract, map[string]any{"case": p.canon, "line": clip(p.line, 2000)})
 		}
+		if p.wire {
+			answers[i] = dropLen(answers[i])
+		}
 		if answers[i] != p.real {
 			x.r.Disagree("normalize-model", fmt.Sprintf("%s: model %q, real %q", p.c.tag, answers[i], p.real),
 				map[string]any{"case": p.canon, "line": clip(p.line, 4000), "model": answers[i], "real": p.real})
@@ -471,6 +501,51 @@ func (x *runner) flush() {
 		}
 	}
 	x.queue = x.queue[:0]
+}
+
+// wireView renders a message on the wire in the model's answer format without
+// the Len() field; nil is "none".
+func wireView(wire []byte) string {
+	if wire == nil {
+		return "none"
+	}
+	w := &dns.Msg{}
+	if err := w.Unpack(wire); err != nil {
+		return "unparsable: " + err.Error()
+	}
+
+	return fmt.Sprintf("%d %d %d %s %s %d 1", len(w.Answer), len(w.Ns), len(noOPT(w.Extra)), b2s(w.Truncated),
+		viewOpt(w.IsEdns0()).String(), len(wire))
+}
+
+func wireOpt(wire []byte) (v optView) {
+	w := &dns.Msg{}
+	if wire == nil || w.Unpack(wire) != nil {
+		return v
+	}
+
+	return viewOpt(w.IsEdns0())
+}
+
+// dropLen removes the Len() field from a model answer.
+func dropLen(ans string) string {
+	f := strings.Fields(ans)
+	if len(f) != 14 {
+		return ans
+	}
+
+	return strings.Join(append(f[:11:11], f[12:]...), " ")
+}
+
+// hdrLine is what acceptMsg looks at, plus the length of header + first
+// question (what genErrorResponse produces).
+func hdrLine(req *dns.Msg) string {
+	e := &dns.Msg{}
+	if len(req.Question) > 0 {
+		e.Question = req.Question[:1]
+	}
+
+	return fmt.Sprintf("%s %d %d %d %d %d", b2s(req.Response), req.Opcode, len(req.Question), len(req.Answer), len(req.Ns), e.Len())
 }
 
 func clip(s string, n int) string {
@@ -518,11 +593,11 @@ func (x *runner) run(c tcase) {
 	resp.Question = reqSeen.Question
 	resp.Response = true
 	hOpt := viewOpt(resp.IsEdns0())
-	if hOpt.Present {
-		// Msg.Pack overwrites the extended-rcode byte of the OPT record with the
-		// high bits of Msg.Rcode; the model is given the value Pack will write.
-		hOpt.Ext = uint8(resp.Rcode >> 4)
-	}
+	// Msg.Pack overwrites the extended-rcode byte of the OPT record with the
+	// high bits of Msg.Rcode (modelled: packOpt); Msg.Truncate leaves a message
+	// alone whose last record is a TSIG (modelled: tsigAtTruncate).
+	rcodeHi := resp.Rcode >> 4
+	tsig := resp.IsTsig() != nil
 	z := measure(resp)
 	nAns, nNs, nExtra := len(resp.Answer), len(resp.Ns), len(noOPT(resp.Extra))
 	tc0 := resp.Truncated
@@ -569,12 +644,25 @@ func (x *runner) run(c tcase) {
 		r.Count("len.overestimates-pack")
 	}
 
-	line := fmt.Sprintf("serve %s %s %d %d %d %d %s %s %s %s %s %s %s %s %s",
+	respFields := fmt.Sprintf("%s %d %d %s %s %s %s %s %s %d %s", b2s(tc0), z.q, z.unc,
+		listString(z.ans), listString(z.ns), listString(z.extra), listString(z.ns2), listString(z.e2),
+		hOpt.String(), rcodeHi, b2s(tsig))
+	line := fmt.Sprintf("serve %s %s %d %d %d %d %s %s",
 		x.legacy, c.t, c.cfgMax, effIdle(c.idleMs), x.draw(c, reqOpt, fOpt), slack,
-		reqLine(reqOpt),
-		b2s(tc0), strconv.Itoa(z.q), strconv.Itoa(z.unc),
-		listString(z.ans), listString(z.ns), listString(z.extra), listString(z.ns2)+" "+listString(z.e2),
-		hOpt.String())
+		reqLine(reqOpt), respFields)
+	// The same case through the model of the whole server, compared with the
+	// bytes on the wire (including the SERVFAIL sent after a refused response).
+	var sent []byte
+	if d.emitted || d.fallback {
+		sent = d.wire
+	}
+	draw2 := 0
+	if d.fallback {
+		draw2 = x.draw(c, reqOpt, wireOpt(sent))
+	}
+	rline := fmt.Sprintf("respond %s %s %d %d %d %d %d %s %s wrote %s",
+		x.legacy, c.t, c.cfgMax, effIdle(c.idleMs), x.draw(c, reqOpt, fOpt), slack, draw2,
+		hdrLine(reqSeen), reqLine(reqOpt), respFields)
 	real := fmt.Sprintf("%d %d %d %s %s %d %d %s", fAns, fNs, fExtra, b2s(resp.Truncated), fOpt.String(), flen, len(packed), b2s(d.emitted))
 
 	lim := x.limit(c, reqOpt)
@@ -583,7 +671,10 @@ func (x *runner) run(c tcase) {
 		hOpt.String(), lim)
 
 	// ---- property oracle, on the bytes that left the server --------------
+	x.curTsigExempt = tsig && !(reqOpt.Present && !hOpt.Present)
+	defer func() { x.curTsigExempt = false }()
 	if d.fallback {
+		x.curTsigExempt = false
 		// The writer refused the handler's response; what reached the client is
 		// the server's own SERVFAIL.  Judge that message on its own.
 		r.Count("outcome.refused-then-servfail")
@@ -644,6 +735,16 @@ func (x *runner) run(c tcase) {
 	r.Case(canon, nontrivial)
 	r.Sample(map[string]any{"case": canon, "model_line": clip(line, 300), "real": real}, 6)
 	x.queue = append(x.queue, pending{c: c, line: line, real: real, canon: canon, nontriv: nontrivial, contract: contract})
+	x.queue = append(x.queue, pending{c: c, line: rline, real: wireView(sent), canon: canon, wire: true})
+	if tsig {
+		r.Count("resp.tsig-last")
+		if tsig && !(reqOpt.Present && !hOpt.Present) {
+			r.Count("resp.tsig-exempt-from-truncate")
+		}
+	}
+	if rcodeHi > 0 {
+		r.Count("resp.extended-rcode")
+	}
 	if len(x.queue) >= 256 {
 		x.flush()
 	}
@@ -731,6 +832,10 @@ func (x *runner) oracle(c tcase, d driven, reqOpt, hOpt optView, nAns, nNs, nExt
 		sig := "udp-oversize"
 		onlyQuestionAndOPT := wAns == 0 && wNs == 0 && wExtra == 0
 		switch {
+		case x.curTsigExempt && isUDP(c.t):
+			sig = "udp-oversize-tsig-not-truncated"
+		case x.curTsigExempt:
+			sig = "stream-oversize-tsig-not-truncated"
 		case isUDP(c.t) && onlyQuestionAndOPT && wOpt.Present && !hOpt.Present:
 			sig = "udp-oversize-reflected-option-payload"
 		case isUDP(c.t) && onlyQuestionAndOPT && wOpt.Present && hOpt.Present:
@@ -776,11 +881,12 @@ func (x *runner) oracle(c tcase, d driven, reqOpt, hOpt optView, nAns, nNs, nExt
 		switch {
 		case !hasPadding(c.t) && c.t != "dcu" && c.t != "dct":
 			r.Violate("padding-on-plain-transport", fmt.Sprintf("%s: padding %v added", c.t, wOpt.lens(dns.EDNS0PADDING)), rp())
+		case !reqOpt.has(dns.EDNS0PADDING):
+			// holds on every encrypted transport, DNSCrypt included
+			r.Violate("padding-not-requested", fmt.Sprintf("%s: padding %v added although the client sent none", c.t, wOpt.lens(dns.EDNS0PADDING)), rp())
 		case !hasPadding(c.t):
 			// DNSCrypt is encrypted; padding there is not forbidden by the property.
 			r.Count("padding.on-dnscrypt")
-		case !reqOpt.has(dns.EDNS0PADDING):
-			r.Violate("padding-not-requested", fmt.Sprintf("%s: padding %v added although the client sent none", c.t, wOpt.lens(dns.EDNS0PADDING)), rp())
 		default:
 			r.Count("padding.added")
 		}
@@ -902,10 +1008,44 @@ func genReq(rng *rand.Rand, t string) *dns.Msg {
 	if rng.IntN(8) == 0 {
 		o.Option = append(o.Option, &dns.EDNS0_COOKIE{Code: dns.EDNS0COOKIE, Cookie: "0011223344556677"})
 	}
+	if rng.IntN(8) == 0 {
+		// the same option twice is legal on the wire
+		o.Option = append(o.Option, &dns.EDNS0_PADDING{Padding: make([]byte, rng.IntN(9))})
+	}
+	if rng.IntN(10) == 0 && t != "doq" {
+		o.Option = append(o.Option, &dns.EDNS0_TCP_KEEPALIVE{Code: dns.EDNS0TCPKEEPALIVE, Timeout: 600})
+	}
+	if rng.IntN(12) == 0 {
+		// Z bits and an extended rcode in a query are unusual but parse
+		o.Hdr.Ttl |= []uint32{0x0001, 0x4000, 0x7fff, 0x01000000}[rng.IntN(4)]
+	}
 	rng.Shuffle(len(o.Option), func(i, j int) { o.Option[i], o.Option[j] = o.Option[j], o.Option[i] })
-	req.Extra = append(req.Extra, o)
+	// RFC 6891 6.1.1: the OPT record may be anywhere in the additional section
+	// (a TSIG, for one, has to come after it).
+	other := func() dns.RR {
+		if rng.IntN(2) == 0 {
+			return tsigRR()
+		}
+
+		return &dns.A{Hdr: dns.RR_Header{Name: "extra.test.", Rrtype: dns.TypeA, Class: dns.ClassINET}, A: net.IPv4(192, 0, 2, 1)}
+	}
+	switch rng.IntN(10) {
+	case 0:
+		req.Extra = append(req.Extra, o, other())
+	case 1:
+		req.Extra = append(req.Extra, other(), o)
+	case 2:
+		req.Extra = append(req.Extra, other(), o, other())
+	default:
+		req.Extra = append(req.Extra, o)
+	}
 
 	return req
+}
+
+func tsigRR() dns.RR {
+	return &dns.TSIG{Hdr: dns.RR_Header{Name: "key.example.", Rrtype: dns.TypeTSIG, Class: dns.ClassANY},
+		Algorithm: dns.HmacSHA256, TimeSigned: 1700000000, Fudge: 300, MACSize: 32, MAC: strings.Repeat("ab", 32), OrigId: 7}
 }
 
 func genOwnOPT(rng *rand.Rand) *dns.OPT {
@@ -957,12 +1097,27 @@ func expectedOptLen(req *dns.Msg, own *dns.OPT) int {
 func genResp(rng *rand.Rand, req *dns.Msg, own *dns.OPT, target int, compressedTarget bool) *dns.Msg {
 	resp := &dns.Msg{}
 	resp.SetReply(req)
-	resp.Rcode = []int{0, 0, 0, 3, 2}[rng.IntN(5)]
+	resp.Rcode = []int{0, 0, 0, 0, 3, 3, 2, 5, 1, 4, 9}[rng.IntN(11)]
+	if (own != nil || req.IsEdns0() != nil) && rng.IntN(12) == 0 {
+		// extended rcodes need an OPT record to travel in
+		resp.Rcode = []int{16, 23, 0xfff}[rng.IntN(3)]
+	}
 	if rng.IntN(12) == 0 {
 		resp.Truncated = true
 	}
+	resp.Authoritative = rng.IntN(4) == 0
+	resp.RecursionAvailable = rng.IntN(2) == 0
+	resp.AuthenticatedData = rng.IntN(4) == 0
+	resp.CheckingDisabled = rng.IntN(6) == 0
+	var tsig dns.RR
+	if rng.IntN(14) == 0 {
+		tsig = tsigRR()
+	}
 	qname := req.Question[0].Name
 	body := target - expectedOptLen(req, own)
+	if tsig != nil {
+		body -= dns.Len(tsig)
+	}
 	cur := func() int {
 		m := &dns.Msg{MsgHdr: resp.MsgHdr, Compress: compressedTarget, Question: resp.Question, Answer: resp.Answer, Ns: resp.Ns, Extra: resp.Extra}
 
@@ -1038,6 +1193,13 @@ func genResp(rng *rand.Rand, req *dns.Msg, own *dns.OPT, target int, compressedT
 			resp.Extra = append(resp.Extra[:i:i], append([]dns.RR{own}, resp.Extra[i:]...)...)
 		} else {
 			resp.Extra = append(resp.Extra, own)
+		}
+	}
+	if tsig != nil {
+		// a TSIG is the last record of a message; now and then the OPT follows it
+		resp.Extra = append(resp.Extra, tsig)
+		if n := len(resp.Extra); own != nil && resp.Extra[n-2] == dns.RR(own) && rng.IntN(4) == 0 {
+			resp.Extra[n-2], resp.Extra[n-1] = resp.Extra[n-1], resp.Extra[n-2]
 		}
 	}
 
@@ -1162,6 +1324,101 @@ func (x *runner) boundaryCampaign() {
 	x.flush()
 }
 
+// exhaustiveGrid (thorough tier) enumerates a small scope completely instead
+// of sampling it: transport x request EDNS shape x handler OPT shape x TC
+// preset x TSIG x response size around the limit x compressed/uncompressed
+// target.
+func (x *runner) exhaustiveGrid() {
+	rng := x.o.Rand("grid-exhaustive")
+	type reqShape struct {
+		opt     bool
+		size    uint16
+		options string
+	}
+	var reqs []reqShape
+	reqs = append(reqs, reqShape{})
+	for _, sz := range []uint16{0, 512, 600, 1232} {
+		for _, op := range []string{"", "p", "k", "pk", "n", "pn"} {
+			reqs = append(reqs, reqShape{true, sz, op})
+		}
+	}
+	owns := []string{"-", "", "p", "k", "e"}
+	n := 0
+	for _, t := range transports {
+		for _, rs := range reqs {
+			if t == "doq" && strings.Contains(rs.options, "k") {
+				continue
+			}
+			for _, ow := range owns {
+				for _, tcPreset := range []bool{false, true} {
+					for _, withTsig := range []bool{false, true} {
+						for _, compressed := range []bool{false, true} {
+							cfg := uint16(1232)
+							lim := x.limit(tcase{t: t, cfgMax: cfg}, optView{Present: rs.opt, Size: rs.size})
+							targets := []int{lim - 1, lim, lim + 1, lim + 40, 2 * lim}
+							if !isUDP(t) {
+								targets = []int{200, 700}
+								if !tcPreset && !withTsig && compressed {
+									targets = append(targets, lim-36, lim, lim+1)
+								}
+							}
+							for _, target := range targets {
+								req := &dns.Msg{}
+								req.SetQuestion("example.org.", dns.TypeTXT)
+								if t == "doq" {
+									req.Id = 0
+								}
+								if rs.opt {
+									o := &dns.OPT{Hdr: dns.RR_Header{Name: ".", Rrtype: dns.TypeOPT}}
+									o.SetUDPSize(rs.size)
+									for _, ch := range rs.options {
+										switch ch {
+										case 'p':
+											o.Option = append(o.Option, &dns.EDNS0_PADDING{Padding: make([]byte, 2)})
+										case 'k':
+											o.Option = append(o.Option, &dns.EDNS0_TCP_KEEPALIVE{Code: dns.EDNS0TCPKEEPALIVE})
+										case 'n':
+											o.Option = append(o.Option, &dns.EDNS0_NSID{Code: dns.EDNS0NSID, Nsid: "abcdef"})
+										}
+									}
+									req.Extra = append(req.Extra, o)
+								}
+								var own *dns.OPT
+								if ow != "-" {
+									own = &dns.OPT{Hdr: dns.RR_Header{Name: ".", Rrtype: dns.TypeOPT}}
+									own.SetUDPSize(4096)
+									switch ow {
+									case "p":
+										own.Option = append(own.Option, &dns.EDNS0_PADDING{Padding: make([]byte, 5)})
+									case "k":
+										own.Option = append(own.Option, &dns.EDNS0_TCP_KEEPALIVE{Code: dns.EDNS0TCPKEEPALIVE, Timeout: 77})
+									case "e":
+										own.Option = append(own.Option, &dns.EDNS0_EDE{InfoCode: 15, ExtraText: strings.Repeat("e", 60)})
+									}
+								}
+								resp := genResp(rng, req, own, target, compressed)
+								resp.Truncated = tcPreset
+								if has := resp.IsTsig() != nil; has != withTsig {
+									if withTsig {
+										resp.Extra = append(resp.Extra, tsigRR())
+									} else {
+										resp.Extra = resp.Extra[:len(resp.Extra)-1]
+									}
+								}
+								n++
+								x.run(tcase{t: t, cfgMax: cfg, idleMs: 30000, req: req, resp: resp,
+									tag: fmt.Sprintf("grid/%s/req=%v/own=%s/tc=%v/tsig=%v/c=%v/target=%d", t, rs, ow, tcPreset, withTsig, compressed, target)})
+							}
+						}
+					}
+				}
+			}
+		}
+	}
+	x.flush()
+	x.r.Distribution["grid.exhaustive-cases"] = n
+}
+
 // sizeGrid compares maxDNSSize with the model and with the stated formula on a
 // boundary grid (exhaustive over the pools).
 func (x *runner) sizeGrid() {
@@ -1278,6 +1535,27 @@ func (x *runner) findings() {
 		resp := genResp(rng, req, nil, 65535, false)
 		x.run(tcase{t: t, cfgMax: 1232, idleMs: 30000, req: req, resp: resp, tag: "finding/pad-after-truncate/" + t})
 	}
+	// (e) a handler response that ends in a TSIG record is not truncated at all.
+	for _, t := range []string{"udp", "dcu", "doh", "dct", "tcp"} {
+		for _, withOpt := range []bool{false, true} {
+			req := &dns.Msg{}
+			req.SetQuestion("example.org.", dns.TypeTXT)
+			var own *dns.OPT
+			if withOpt {
+				req.SetEdns0(1232, false)
+				own = &dns.OPT{Hdr: dns.RR_Header{Name: ".", Rrtype: dns.TypeOPT}}
+			}
+			target := 2000
+			if !isUDP(t) {
+				target = 65700
+			}
+			resp := genResp(rng, req, own, target, false)
+			if resp.IsTsig() == nil {
+				resp.Extra = append(resp.Extra, tsigRR())
+			}
+			x.run(tcase{t: t, cfgMax: 1232, req: req, resp: resp, tag: fmt.Sprintf("finding/tsig/%s/opt=%v", t, withOpt)})
+		}
+	}
 	// (d) synthesised OPT must echo the client's size (repaired; kept as a regression probe).
 	for _, t := range transports {
 		req := &dns.Msg{}
@@ -1288,6 +1566,157 @@ func (x *runner) findings() {
 		}
 		resp := genResp(rng, req, nil, 120, true)
 		x.run(tcase{t: t, cfgMax: 4096, req: req, resp: resp, tag: "finding/synth-opt-size/" + t})
+	}
+	x.flush()
+}
+
+// runServer drives a query that the server answers itself (or not at all):
+// FORMERR / NOTIMP from acceptMsg, an ignored message, a handler that stays
+// silent or fails.  The bytes on the wire go to the property oracle and are
+// compared with the model of the whole server (`respond`).
+func (x *runner) runServer(c tcase, kind, mode string) {
+	r := x.r
+	reqWire, err := c.req.Pack()
+	if err != nil {
+		r.Count("skipped.request-does-not-pack")
+
+		return
+	}
+	reqSeen := &dns.Msg{}
+	if err = reqSeen.Unpack(reqWire); err != nil {
+		r.Count("skipped.request-does-not-unpack")
+
+		return
+	}
+	reqOpt := viewOpt(reqSeen.IsEdns0())
+	var d driven
+	func() {
+		defer func() {
+			if v := recover(); v != nil {
+				r.Violate("panic-in-write-path", fmt.Sprintf("%s: write path panicked: %v", c.t, v), x.replay(c, "", reqOpt, optView{}))
+			}
+		}()
+		d = x.sv.driveMode(mode, c.t, c.cfgMax, c.idleMs, reqWire, &dns.Msg{})
+	}()
+	var sent []byte
+	if d.emitted {
+		sent = d.wire
+	}
+	hk := mode
+	if mode == "wrote" {
+		// the handler is not reached for these queries
+		hk = "silent"
+		if x.sv.called {
+			r.Disagree("handler-called", c.t+": handler called for a "+kind+" query", map[string]any{"kind": kind})
+		}
+	}
+	rline := fmt.Sprintf("respond %s %s %d %d %d 0 0 %s %s %s 0 0 0 _ _ _ _ _ 0 0 0 0 0 0 _ 0 0",
+		x.legacy, c.t, c.cfgMax, effIdle(c.idleMs), x.draw(c, reqOpt, wireOpt(sent)),
+		hdrLine(reqSeen), reqLine(reqOpt), hk)
+	lim := x.limit(c, reqOpt)
+	canon := fmt.Sprintf("%s cfg=%d idle=%d req[%s] hdr[%s] server-made/%s lim=%d", c.t, c.cfgMax, c.idleMs, reqLine(reqOpt), hdrLine(reqSeen), kind, lim)
+	x.oracle(c, driven{wire: sent, emitted: sent != nil}, reqOpt, optView{}, 0, 0, 0, lim, canon, rline)
+	r.Count("server-made." + kind)
+	if sent == nil {
+		r.Count("server-made.nothing-sent")
+	} else {
+		r.Count("server-made.sent")
+	}
+	if d.badWire != "" {
+		r.Violate("bad-framing", c.t+": "+d.badWire, x.replay(c, rline, reqOpt, optView{}))
+	}
+	r.Case(canon, true)
+	r.Sample(map[string]any{"case": canon, "model_line": clip(rline, 300), "real": wireView(sent)}, 9)
+	x.queue = append(x.queue, pending{c: c, line: rline, real: wireView(sent), canon: canon, wire: true, nontriv: true})
+	if len(x.queue) >= 256 {
+		x.flush()
+	}
+}
+
+// serverMade: every transport x every kind of query the server answers
+// itself x request OPT variants.
+func (x *runner) serverMade() {
+	rng := x.o.Rand("server-made")
+	kinds := []string{"two-questions", "no-question", "opcode-status", "opcode-update", "opcode-notify", "response-bit",
+		"two-answers", "two-ns", "silent", "failed0", "failed1"}
+	reps := 1
+	if x.o.Thorough() {
+		reps = 6
+	}
+	for rep := 0; rep < reps; rep++ {
+		for _, t := range transports {
+			for _, kind := range kinds {
+				for variant := 0; variant < 7; variant++ {
+					var req *dns.Msg
+					if variant == 6 {
+						req = genReq(rng, t)
+					} else {
+						req = &dns.Msg{}
+						req.SetQuestion(qnames[rng.IntN(len(qnames))], dns.TypeA)
+						req.Id = uint16(1 + rng.IntN(65535))
+					}
+					if t == "doq" {
+						req.Id = 0
+					}
+					if variant > 0 && variant < 6 {
+						o := &dns.OPT{Hdr: dns.RR_Header{Name: ".", Rrtype: dns.TypeOPT}}
+						o.SetUDPSize([]uint16{0, 1232, 512, 4096, 0, 65535}[variant])
+						if variant == 1 {
+							o.SetDo()
+						}
+						if variant == 2 || variant == 5 {
+							o.Option = append(o.Option, &dns.EDNS0_PADDING{Padding: make([]byte, 6)})
+							if t != "doq" {
+								o.Option = append(o.Option, &dns.EDNS0_TCP_KEEPALIVE{Code: dns.EDNS0TCPKEEPALIVE})
+							}
+						}
+						if variant == 3 || variant == 5 {
+							o.Option = append(o.Option, &dns.EDNS0_NSID{Code: dns.EDNS0NSID, Nsid: strings.Repeat("ab", []int{0, 20, 600}[rng.IntN(3)])})
+						}
+						req.Extra = append(req.Extra, o)
+						if variant == 3 {
+							req.Extra = append(req.Extra, tsigRR())
+						}
+					}
+					mode := "wrote"
+					second := dns.Question{Name: "second.test.", Qtype: dns.TypeAAAA, Qclass: dns.ClassINET}
+					rr := func(n string) dns.RR {
+						return &dns.A{Hdr: dns.RR_Header{Name: n, Rrtype: dns.TypeA, Class: dns.ClassINET, Ttl: 5}, A: net.IPv4(192, 0, 2, 9)}
+					}
+					switch kind {
+					case "two-questions":
+						req.Question = append(req.Question, second)
+					case "no-question":
+						req.Question = nil
+					case "opcode-status":
+						req.Opcode = dns.OpcodeStatus
+					case "opcode-update":
+						req.Opcode = dns.OpcodeUpdate
+					case "opcode-notify":
+						req.Opcode = dns.OpcodeNotify
+					case "response-bit":
+						req.Response = true
+					case "two-answers":
+						req.Answer = []dns.RR{rr("a.test."), rr("b.test.")}
+					case "two-ns":
+						req.Ns = []dns.RR{rr("a.test."), rr("b.test.")}
+					default:
+						mode = kind
+					}
+					c := tcase{t: t, cfgMax: pick16(rng, cfgSizes), idleMs: idles[rng.IntN(len(idles))], req: req,
+						tag: fmt.Sprintf("server-made/%s/%s/v%d", t, kind, variant)}
+					x.r.Count("gen.server-made")
+					if kind == "opcode-notify" {
+						// accepted like a query: the handler answers
+						c.resp = genResp(rng, req, nil, 40+rng.IntN(900), true)
+						x.run(c)
+
+						continue
+					}
+					x.runServer(c, kind, mode)
+				}
+			}
+		}
 	}
 	x.flush()
 }
@@ -1311,10 +1740,12 @@ func main() {
 	x.sizeGrid()
 	x.packGuard()
 	x.findings()
+	x.serverMade()
 	x.boundaryCampaign()
 	n := 3500
 	if o.Thorough() {
 		n = 30000
+		x.exhaustiveGrid()
 	}
 	x.randomCampaign(n)
 
